@@ -311,6 +311,11 @@ func (e *Engine) callerOfWrapper() string {
 	return e.harness.Name
 }
 
+func isStringType(t types.Type) bool {
+	b, ok := t.Underlying().(*types.Basic)
+	return ok && b.Info()&types.IsString != 0
+}
+
 func (e *Engine) intrinsicCallAnon(st *State, args []Value, pos token.Pos) (*Value, *State, bool) {
 	c := e.C
 	fname, ok := e.litOf(args[0])
@@ -334,12 +339,36 @@ func (e *Engine) intrinsicCallAnon(st *State, args []Value, pos token.Pos) (*Val
 		return out
 	}
 	binds := unboxAll(args[1])
+	if len(binds) > 0 && isStringType(binds[0].T) {
+		// named form: "name", &var, "name", &var ... (robust against a reordering of the captured variables)
+		byName := map[string]Value{}
+		for k := 0; k+1 < len(binds); k += 2 {
+			n, ok := e.litOf(binds[k])
+			if !ok {
+				panic(unsupported("vCallAnon: captured-variable names must be constant strings"))
+			}
+			byName[n] = binds[k+1]
+		}
+		var ordered []Value
+		for _, fv := range target.FreeVars {
+			v, ok := byName[fv.Name()]
+			if !ok {
+				panic(unsupported("vCallAnon " + fname + ": no binding for captured variable " + fv.Name()))
+			}
+			ordered = append(ordered, v)
+		}
+		binds = ordered
+	}
 	var cargs []Value
 	if len(args) > 2 && len(args[2].L) > 0 {
 		cargs = unboxAll(args[2])
 	}
 	if len(binds) != len(target.FreeVars) || len(cargs) != len(target.Params) {
-		panic(unsupported(fmt.Sprintf("vCallAnon %s: expects %d captured variables and %d arguments", fname, len(target.FreeVars), len(target.Params))))
+		var names []string
+		for _, fv := range target.FreeVars {
+			names = append(names, fv.Name())
+		}
+		panic(unsupported(fmt.Sprintf("vCallAnon %s: expects %d captured variables %v and %d arguments", fname, len(target.FreeVars), names, len(target.Params))))
 	}
 	for k, fv := range target.FreeVars {
 		binds[k].T = fv.Type()
